@@ -203,3 +203,302 @@ Proof. apply run_inv; [exact GI_init|]. intros; eapply GI_step; eassumption. Qed
 
 Theorem wire_ok_reachable acts : wire_ok (fst (run init acts)).
 Proof. apply run_inv; [exact wire_ok_init|]. intros; eapply wire_ok_step; eassumption. Qed.
+
+(** * Freshness of unpublished generation slots *)
+
+Definition FI (s : state) : Prop :=
+  (forall g, cur s = Some g -> g < ngen s) /\ (forall g, ngen s <= g -> gens s g = gen0).
+
+Lemma FI_init : FI init.
+Proof. split; intros; [discriminate|reflexivity]. Qed.
+
+Lemma FI_set_gen s s' g y :
+  FI s -> cur s' = cur s -> ngen s' = ngen s -> gens s' = upd (gens s) g y ->
+  (ngen s <= g -> gens s g = gen0 -> y = gen0) -> FI s'.
+Proof.
+  intros [F1 F2] Hc Hn Hg Hy. split; rewrite ?Hc, ?Hn, ?Hg; [assumption|].
+  intros g0 Hg0. unfold upd. destruct (Nat.eqb_spec g0 g) as [->|]; [|apply F2; assumption].
+  apply Hy; [assumption|apply F2; assumption].
+Qed.
+
+Lemma FI_step s a s' o : FI s -> exec s a = (s', o) -> FI s'.
+Proof.
+  intros F H.
+  destruct (call_action a) eqn:Ha.
+  { assert (Hn : ngen s' = ngen s).
+    { destruct a; try discriminate Ha; unfold_exec H; dmatch H; inversion H; subst; reflexivity. }
+    destruct (call_action_frame _ _ _ _ Ha H) as [Hc Hg]. destruct F as [F1 F2].
+    split; rewrite ?Hc, ?Hg, ?Hn; assumption. }
+  destruct a; try discriminate Ha; clear Ha; unfold_exec H; dmatch H; inversion H; subst; clear H;
+    try assumption;
+    try (eapply FI_set_gen; [eassumption|st_simpl; reflexivity|st_simpl; reflexivity|st_simpl; reflexivity|];
+         intros Hle Hz;
+         try (exfalso; destruct F as [F1 _];
+              match goal with Hr : cur _ = Some _ |- _ => specialize (F1 _ Hr); lia end);
+         rewrite Hz in *; cbn in *; congruence);
+    try (destruct F as [F1 F2]; unfold new_gen; split; st_simpl;
+         [intros g0 Hg0; inversion Hg0; subst; lia
+         |intros g0 Hg0; unfold upd; destruct (Nat.eqb_spec g0 (ngen s)); [reflexivity|apply F2; lia]]).
+Qed.
+
+(** * Per-call invariant *)
+
+Definition wired (s : state) (c : nat) : bool := existsb (fun e => Nat.eqb (snd (fst e)) c) (wire s).
+
+Definition callok (w : bool) (x : call) : bool :=
+  match c_phase x with
+  | PWritten | PWait => w && registers (c_kind x)
+  | PDone _ => true
+  | _ => negb w
+  end
+  && match c_reg x with
+     | RegFull (RReply f) | RegFull (RReject f) => Nat.eqb f (c_gen x)
+     | RegFull _ => false
+     | _ => true
+     end.
+
+Definition CI (s : state) : Prop := forall c, callok (wired s c) (calls s c) = true.
+
+Lemma CI_init : CI init.
+Proof. intros c. reflexivity. Qed.
+
+Definition nocall_action (a : action) : bool :=
+  match a with
+  | PeerSend _ _ | Read _ | Open | Publish | TCPUp | Select | Deselect | Drop | CloseReq | Teardown | Join _
+  | LoopSpawn | LoopBegin | LoopEnd _ | Snap => true
+  | _ => false
+  end.
+
+Lemma nocall_frame s a s' o :
+  nocall_action a = true -> exec s a = (s', o) -> calls s' = calls s /\ wire s' = wire s.
+Proof.
+  intros Ha H. destruct a; try discriminate Ha; unfold_exec H; dmatch H;
+    inversion H; subst; st_simpl; split; reflexivity.
+Qed.
+
+Ltac call_bits x :=
+  let k := fresh "k" in let g := fresh "g" in let p := fresh "p" in let r := fresh "r" in
+  destruct x as [k g p r]; cbn [c_kind c_gen c_phase c_reg] in *.
+
+Lemma wired_cons s g c k c1 w :
+  wire s = (g, c, k) :: w -> wired s c1 = Nat.eqb c c1 || existsb (fun e => Nat.eqb (snd (fst e)) c1) w.
+Proof. intros H. unfold wired. rewrite H. reflexivity. Qed.
+
+Ltac ci_same G C s c :=
+  specialize (C c); unfold wired in C; rewrite ?Nat.eqb_refl;
+  try match goal with Hr : cur _ = Some ?gc, Hb : g_rbuf (gens _ ?g) = Some _ |- _ =>
+        let Q := fresh "Q" in pose proof (G g) as Q; unfold genok, cur_is in Q; rewrite Hr, Hb in Q;
+        cbn [is_some] in Q; apply andb_prop in Q; destruct Q as [Q _]; apply andb_prop in Q;
+        destruct Q as [_ Q]; apply Nat.eqb_eq in Q; subst end;
+  match type of C with callok ?w _ = true => generalize dependent w end; intros w C;
+  call_bits (calls s c); subst;
+  unfold callok, with_phase, with_reg in *; cbn [c_kind c_gen c_phase c_reg] in *;
+  repeat match goal with
+         | Hx : Nat.eqb _ _ = true |- _ => apply Nat.eqb_eq in Hx; subst
+         end;
+  rewrite ?Nat.eqb_refl;
+  repeat match goal with
+         | b : bool |- _ => destruct b
+         | k : kind |- _ => destruct k
+         | r : rstate |- _ => destruct r
+         | r : result |- _ => destruct r
+         end; cbn in *; try reflexivity; try discriminate; try congruence.
+
+Lemma CI_step s a s' o : GI s -> CI s -> exec s a = (s', o) -> CI s'.
+Proof.
+  intros G C H.
+  destruct (nocall_action a) eqn:Ha.
+  { destruct (nocall_frame _ _ _ _ Ha H) as [Hc Hw]. intros c. unfold wired. rewrite Hc, Hw. apply C. }
+  destruct a; try discriminate Ha; clear Ha;
+    unfold_exec H; dmatch H; inversion H; subst; clear H; try assumption;
+    intros c1; unfold wired; st_simpl; unfold upd; cbn [existsb fst snd];
+    match goal with |- context [if Nat.eqb ?a ?b then _ else _] => destruct (Nat.eqb_spec a b) as [->|Hne] end.
+  all: try (match goal with Hne : _ <> _ |- _ =>
+              try (match goal with |- context [Nat.eqb ?x ?y || _] => destruct (Nat.eqb_spec x y) as [Hx|_]; [congruence|] end);
+              cbn [orb]; apply C end).
+  all: match goal with
+       | |- callok _ (_ (calls ?s0 ?c) _) = true => ci_same G C s0 c
+       | E : c_phase (calls ?s0 ?c) = _ |- _ => ci_same G C s0 c
+       end.
+Qed.
+
+(** * The monitor state as a function of the model state *)
+
+Definition acc_of (x : call) : option nat :=
+  match c_phase x with PNone | PDone RNotOpen => None | _ => Some (c_gen x) end.
+Definition done_of (x : call) : bool :=
+  match c_phase x with PNone | PEntered | PGated => false | PDone _ => true | _ => is_async (c_kind x) end.
+Definition mview (s : state) (c : nat) : mcall :=
+  let x := calls s c in
+  match c_phase x with
+  | PNone => mcall0
+  | _ => mkMC (acc_of x) (c_kind x) (wired s c) (done_of x)
+  end.
+Definition view (s : state) : mon9 := mkMon9 (mview s) (fun g => g_cancel (gens s g)).
+
+Definition meq (a b : mon9) : Prop := (forall c, mc a c = mc b c) /\ (forall g, mt a g = mt b g).
+
+Lemma meq_refl a : meq a a.
+Proof. split; reflexivity. Qed.
+
+Lemma meq_trans a b c : meq a b -> meq b c -> meq a c.
+Proof. intros [H1 H2] [H3 H4]. split; intros; congruence. Qed.
+
+Lemma mon9_step_meq a b o : meq a b ->
+  match mon9_step a o, mon9_step b o with
+  | Some a', Some b' => meq a' b'
+  | None, None => True
+  | _, _ => False
+  end.
+Proof.
+  intros [Hc Hg]. destruct o; cbn [mon9_step]; rewrite <- ?Hc, <- ?Hg;
+    repeat match goal with
+    | |- context [match ?x with _ => _ end] =>
+        lazymatch x with
+        | context [match _ with _ => _ end] => fail
+        | _ => destruct x eqn:?
+        end
+    end; try exact I; try (split; assumption);
+    split; cbn [mc mt]; intros x; unfold upd;
+    try match goal with |- context [Nat.eqb ?p ?q] => destruct (Nat.eqb p q) end; auto.
+Qed.
+
+Lemma mon9_run_meq l : forall a b, meq a b ->
+  match mon9_run a l, mon9_run b l with
+  | Some a', Some b' => meq a' b'
+  | None, None => True
+  | _, _ => False
+  end.
+Proof.
+  induction l as [|o r IH]; intros a b H; cbn [mon9_run]; [exact H|].
+  pose proof (mon9_step_meq a b o H) as Hs.
+  destruct (mon9_step a o), (mon9_step b o); try contradiction; [apply IH; exact Hs|exact I].
+Qed.
+
+Lemma registers_not_async k : registers k = true -> is_async k = false.
+Proof. destruct k; cbn; congruence. Qed.
+
+Lemma mview_frame s s' :
+  calls s' = calls s -> wire s' = wire s -> forall c, mview s' c = mview s c.
+Proof. intros Hc Hw c. unfold mview, wired. rewrite Hc, Hw. reflexivity. Qed.
+
+(** Steps that do not touch the calls. *)
+Lemma mon_nocall s a s' o :
+  GI s -> FI s -> nocall_action a = true -> exec s a = (s', o) ->
+  exists m', mon9_run (view s) o = Some m' /\ meq m' (view s').
+Proof.
+  intros G F Ha H.
+  destruct (nocall_frame _ _ _ _ Ha H) as [Hc Hw].
+  pose proof (mview_frame _ _ Hc Hw) as Hm. clear Hc Hw.
+  destruct a; try discriminate Ha; clear Ha; unfold_exec H; dmatch H; inversion H; subst; clear H;
+    cbn [mon9_run mon9_step];
+    try (eexists; split; [reflexivity|]; split; [intros c0; cbn [view mc]; symmetry; apply Hm|];
+         intros g0; cbn [view mt]; st_simpl; unfold upd;
+         try match goal with |- context [if Nat.eqb ?p ?q then _ else _] => destruct (Nat.eqb_spec p q) as [->|] end;
+         cbn [g_cancel]; try reflexivity;
+         try (destruct F as [_ F2]; rewrite (F2 (ngen s) (le_n _)); reflexivity);
+         repeat match goal with Hx : _ && _ = true |- _ => apply andb_prop in Hx; destruct Hx end;
+         repeat match goal with Hx : negb _ = true |- _ => apply negb_true_iff in Hx end;
+         congruence).
+  (* Teardown *)
+  cbn [view mt].
+  repeat match goal with Hx : _ && _ = true |- _ => apply andb_prop in Hx; destruct Hx end.
+  match goal with Hx : negb _ = true |- _ => apply negb_true_iff in Hx; rewrite Hx end.
+  eexists; split; [reflexivity|]. split; [intros c0; cbn [view mc]; symmetry; apply Hm|].
+  intros g0; cbn [view mt]; st_simpl; unfold upd. destruct (Nat.eqb_spec g0 n); reflexivity.
+Qed.
+
+Lemma mon_route s g s' o :
+  exec s (Route g) = (s', o) ->
+  exists m', mon9_run (view s) o = Some m' /\ meq m' (view s').
+Proof.
+  intros H. unfold_exec H; dmatch H; inversion H; subst; clear H; cbn [mon9_run mon9_step];
+    (eexists; split; [reflexivity|]; split;
+     [ intros c0; cbn [view mc]; unfold mview, wired; st_simpl; unfold upd;
+       try match goal with |- context [if Nat.eqb ?p ?q then _ else _] => destruct (Nat.eqb_spec p q) as [->|] end;
+       unfold with_reg; cbn [c_kind c_gen c_phase c_reg]; reflexivity
+     | intros g0; cbn [view mt]; st_simpl; unfold upd;
+       try match goal with |- context [if Nat.eqb ?p ?q then _ else _] => destruct (Nat.eqb_spec p q) as [->|] end;
+       reflexivity ]).
+Qed.
+
+(** Steps of one call. *)
+Ltac mon_call G C s c :=
+  let Cc := fresh "Cc" in
+  pose proof (C c) as Cc; unfold wired in Cc;
+  try match goal with Hs : g_sock (gens _ ?g) = true |- _ =>
+        let Q := fresh "Q" in pose proof (G g) as Q; unfold genok in Q; rewrite Hs in Q;
+        cbn [implb] in Q; apply andb_prop in Q; destruct Q as [Q _]; apply andb_prop in Q; destruct Q as [Q _];
+        apply andb_prop in Q; destruct Q as [_ Q]; apply negb_true_iff in Q end;
+  unfold view; cbn [mon9_run mon9_step mc mt]; unfold mview, wired; st_simpl;
+  let Hw := fresh "Hw" in
+  match type of Cc with callok ?w _ = true => destruct w eqn:Hw end;
+  let Ec := fresh "Ec" in
+  let k := fresh "k" in let g := fresh "g" in let p := fresh "p" in let r := fresh "r" in
+  destruct (calls s c) as [k g p r] eqn:Ec; cbn [c_kind c_gen c_phase c_reg] in *; subst;
+  unfold callok, with_phase, with_reg, acc_of, done_of in *; cbn [c_kind c_gen c_phase c_reg] in *;
+  repeat match goal with Hx : _ && _ = true |- _ => apply andb_prop in Hx; destruct Hx end;
+  repeat match goal with
+         | b : bool |- _ => destruct b
+         | k : kind |- _ => destruct k
+         end; cbn in *; try discriminate; try congruence;
+  try match goal with r : result |- _ => destruct r; cbn in *; try discriminate end;
+  repeat match goal with Hx : Nat.eqb _ _ = true |- _ => rewrite Hx end;
+  repeat match goal with Hq : g_cancel _ = false |- _ => rewrite Hq end;
+  rewrite ?Nat.eqb_refl; cbn [andb negb];
+  unfold upd; rewrite ?Nat.eqb_refl; cbn; rewrite ?Nat.eqb_refl; cbn;
+  eexists; (split; [reflexivity|]);
+  (split;
+   [ let x := fresh "x" in
+     intros x; cbn [mc]; st_simpl; unfold upd; cbn [existsb fst snd];
+     destruct (Nat.eqb_spec x c) as [->|Hne];
+     [ rewrite ?Nat.eqb_refl, ?Ec; cbn [c_kind c_gen c_phase c_reg orb is_async]; rewrite ?Hw; reflexivity
+     | try (destruct (Nat.eqb_spec c x); [congruence|]); cbn [orb]; reflexivity ]
+   | intros g0; cbn [mt]; st_simpl; reflexivity ]).
+
+Lemma mon_step9 s a s' o :
+  GI s -> FI s -> CI s -> exec s a = (s', o) ->
+  exists m', mon9_run (view s) o = Some m' /\ meq m' (view s').
+Proof.
+  intros G F C H.
+  destruct (nocall_action a) eqn:Ha; [eapply mon_nocall; eassumption|].
+  destruct a; try discriminate Ha; clear Ha; try (eapply mon_route; eassumption);
+    unfold_exec H; dmatch H; inversion H; subst; clear H;
+    try (eexists; split; [reflexivity|apply meq_refl]).
+  all: match goal with E : c_phase (calls ?s0 ?c) = _ |- _ => mon_call G C s0 c end.
+Qed.
+
+Lemma view_init : meq mon9_0 (view init).
+Proof. split; intros; reflexivity. Qed.
+
+Lemma run_ok9 acts : forall s m,
+  GI s -> FI s -> CI s -> meq m (view s) ->
+  exists m', mon9_run m (snd (run s acts)) = Some m' /\ meq m' (view (fst (run s acts))).
+Proof.
+  induction acts as [|a r IH]; intros s m G F C Hm; cbn [run].
+  - exists m. split; [reflexivity|exact Hm].
+  - destruct (exec s a) as [s1 o1] eqn:E.
+    destruct (mon_step9 _ _ _ _ G F C E) as (m1 & Hr1 & Hm1).
+    pose proof (mon9_run_meq o1 _ _ Hm) as Ht. rewrite Hr1 in Ht.
+    destruct (mon9_run m o1) as [m1'|] eqn:Hr1'; [|contradiction].
+    assert (Hm1' : meq m1' (view s1)) by (eapply meq_trans; eassumption).
+    specialize (IH s1 m1' (GI_step _ _ _ _ G E) (FI_step _ _ _ _ F E) (CI_step _ _ _ _ G C E) Hm1').
+    destruct (run s1 r) as [s2 o2]. cbn [fst snd] in *.
+    destruct IH as (m2 & Hr2 & Hm2). exists m2. split; [|exact Hm2].
+    rewrite mon9_run_app, Hr1'. exact Hr2.
+Qed.
+
+(** Every action sequence is accepted by the monitor. *)
+Theorem all_runs_ok9 acts : ok_C09 (snd (run init acts)) = true.
+Proof.
+  destruct (run_ok9 acts init mon9_0 GI_init FI_init CI_init view_init) as (m & Hm & _).
+  unfold ok_C09. rewrite Hm. reflexivity.
+Qed.
+
+Theorem CI_reachable acts : CI (fst (run init acts)).
+Proof.
+  assert (H : GI (fst (run init acts)) /\ CI (fst (run init acts))).
+  { apply (run_inv (fun s => GI s /\ CI s)); [split; [exact GI_init|exact CI_init]|].
+    intros s a s' o [G C] E. split; [eapply GI_step|eapply CI_step]; eassumption. }
+  exact (proj2 H).
+Qed.
